@@ -89,6 +89,8 @@ theorem triage_download (cfg : Cfg) (c index sub : Nat) (hi : index < 65536) (hr
   rw [triage_eq_bytes _ _ _ _ (mkPdu_ok _ _), mkPdu_bytes, downloadResponse_image _ _ _ _ hr]
   unfold triageB
   have hcmd : bitsOf 96 5 3 = 3 := by decide
+  rw [unpackCoeHeaders_cons _ _ _ _ _ _ _ _ _ (by rw [bits_type]; exact validMbx3)
+    (by rw [show (48 : Nat) = 16 * 3 from rfl, bits_svc 3 (by decide)]; exact validSvc3)]
   rw [unpackHeadersRaw_cons _ _ _ _ _ _ _ _ _ _ _ _ _ (by rw [bits_type]; exact validMbx3)
     (by rw [show (48 : Nat) = 16 * 3 from rfl, bits_svc 3 (by decide)]; exact validSvc3)
     (by rw [hcmd]; exact validCmd3)]
